@@ -67,8 +67,20 @@ def shrink(exe, ops, which, prop, budget=60):
     return head + body
 
 
+def count_datagrams(lines):
+    """how many emitted datagrams of each kind the answer lines carry (all of them are compared byte for byte by model_diff)"""
+    n = {}
+    for l in lines:
+        for p in l.split(" | "):
+            k = p.split(" ", 1)[0]
+            if k in ("tx", "nsa", "fwd", "raw", "rly", "tunw", "dq"):
+                n[k] = n.get(k, 0) + 1
+    return n
+
+
 def model_diff(chk, ops, lines):
-    """feed the derived model ops to the Lean driver; compare projected lines.  Returns (ndiff, first diff | None) or None"""
+    """feed the ops to the Lean driver (byte level: Server/Bytes.lean); compare the whole lines — dq, every event, every emitted
+    datagram (tx, nsa, fwd, raw, rly) byte for byte, select timeout, slot digest.  Returns (ndiff, first diff | None) or None"""
     drv = chk.driver()
     if drv is None:
         return None
@@ -111,10 +123,14 @@ def run(chk, prop, which=None, runs=None, nsteps=None, gen_kw=None, extra_monito
             if p == prop:
                 chk.violation("%s fails on the implementation (corpus %s, step %d): %s" % (prop, os.path.basename(f), i, msg), ops); bad += 1
     jobs = [(exe, chk.seed * 100003 + k, nsteps, which, gen_kw or {}) for k in range(runs)]
+    # sessions that open with the encoder matrix (every answer type x downstream codec, NS/A responses, forwarded queries): they
+    # go through the same monitors and give the byte-level correspondence its coverage (srvgen.scenario_bytes_matrix)
+    jobs += [(exe, chk.seed * 100003 + 50000 + k, nsteps // 4, which, dict(gen_kw or {}, matrix=True, bind=5353)) for k in range(16 if thorough else 4)]
     with ProcessPoolExecutor(min(16, os.cpu_count() or 4)) as ex:
         results = list(ex.map(_one_run, jobs))
     stats, kinds, nops, ndiff, firstdiff, nontriv = {}, {}, 0, 0, None, 0
     model_missing = False
+    dgrams = {}
     for r in results:
         nops += len(r["ops"])
         for k, v in r["stats"].items():
@@ -139,6 +155,8 @@ def run(chk, prop, which=None, runs=None, nsteps=None, gen_kw=None, extra_monito
         if d is None:
             model_missing = True
         else:
+            for k_, v_ in count_datagrams(r["lines"]).items():
+                dgrams[k_] = dgrams.get(k_, 0) + v_
             ndiff += d[0]
             if d[1] and firstdiff is None:
                 firstdiff = (r, d[1])
@@ -154,6 +172,8 @@ def run(chk, prop, which=None, runs=None, nsteps=None, gen_kw=None, extra_monito
     chk.notes["slowest_op_seconds"] = round(max([r.get("slowest", 0.0) for r in results] or [0.0]), 3)
     chk.notes["monitor_stats"] = stats
     chk.notes["correspondence_diffs"] = None if model_missing else ndiff
+    chk.notes["correspondence_level"] = "bytes: datagram in -> dns_decode -> session machine -> encoders -> datagram out (Server/Bytes.lean)"
+    chk.notes["datagrams_compared"] = dgrams
     for r in results[:3]:
         for i in (5, len(r["ops"]) // 2):
             if i < len(r["ops"]):
